@@ -23,6 +23,7 @@ type KF struct {
 	Mode    string
 	Poisons string // generator feature: Floats | Strings | MatchExpr | ""
 	Fix     string // proposed fix diff ("" = no small fix)
+	After   string // the finding is masked on the unchanged tree until this fix is applied
 }
 
 // Findings lists the defects of the unchanged tree that this check reports (FINDINGS.md has the
@@ -80,7 +81,10 @@ var Findings = []KF{
 	{Name: "KF-c19-aast-let-type-unrepresentable", Tag: "let-vararg-builtin", Witness: "let-vararg-builtin", Mode: ModeAAst, Fix: "",
 		What: "analysed-tree printer annotates every let with its inferred type even when that type has no source syntax (`let p = println;` prints `let p: fn(...unknown) -> null = println;`)",
 		Sig:  `^aast:reparse-rejected:syntax@FunctionType$`},
-	{Name: "KF-c19-opt-match-no-default", Tag: "match-no-default", Witness: "after-match-no-default-diverge", Mode: ModeOptT, Fix: "",
+	{Name: "KF-c19-aast-let-type-unrepresentable", Tag: "let-singleton-fn", Witness: "singleton-fn-alias", Mode: ModeAAst, Fix: "", After: "08",
+		What: "analysed-tree printer annotates every let with its inferred type even when that type has no source syntax (`let f = show;` with `fn show(s: $S)` prints `let f: fn(s: { … }) -> … = show;`: the singleton extraction is lost and `f()` is rejected)",
+		Sig:  `^aast:reparse-rejected:semantic:Function requires  argument \(s\), however  were supplied$`},
+	{Name: "KF-c19-opt-match-no-default", Tag: "match-no-default", Witness: "after-match-no-default-diverge", Mode: ModeOptT, Fix: "16",
 		What: "a statement-position match whose arms all diverge but which has no default arm is typed `never` by the analyzer; the optimizer deletes the statements after it although a non-matching value falls through to them",
 		Sig:  `^optt?:behaviour:[a-z-]+@AnalyzedBlock\.Statements:len$`},
 }
@@ -160,6 +164,9 @@ func FindingsMain() int {
 		w, _ := json.Marshal(map[string]any{"kind": c.Kind, "payload": json.RawMessage(c.Payload), "tags": c.Tags})
 		sig, _ := json.Marshal(k.Sig)
 		tag, _ := json.Marshal(k.Tag)
+		if k.After != "" {
+			status += " (second layer: expected to reproduce only after fix " + k.After + ")"
+		}
 		fmt.Printf("# %s [%s] fix=%q: %s\n", k.Name, k.Tag, k.Fix, status)
 		fmt.Printf("open: property=C19 %s %s :: {\"witness\":%s,\"sig\":%s,\"tag\":%s}\n", k.Name, k.What, w, sig, tag)
 	}
